@@ -33,6 +33,9 @@ Record task_info := TaskInfo {
 
 Inductive tstatus := Pending | Finished | Cancelled.
 
+(* what the instrumented futures and the panic hook observe *)
+Inductive aev := EvPoll (t i : nat) | EvDone (t : nat) | EvPanic.
+
 Record astate := AState {
   scopes : list scope_info;
   tasks : list task_info;
@@ -95,13 +98,13 @@ Definition count_pending_guards (ts : list task_info) (sus : nat) : nat :=
   List.length (filter (fun t => match t_sus t with Some s => Nat.eqb s sus | None => false end) ts).
 
 (* the first poll of every task happens right after construction *)
-Definition initial_progress (ts : list task_info) : list (nat * (nat * tstatus)) * list string :=
+Definition initial_progress (ts : list task_info) : list (nat * (nat * tstatus)) * list aev :=
   fold_left (fun '(pr, lg) t =>
-               if Nat.eqb (t_gates t) 0 then ((pr ++ [(t_id t, (0, Finished))]), (lg ++ [cat ["done:"; show_nat (t_id t)]]))
-               else ((pr ++ [(t_id t, (0, Pending))]), (lg ++ [cat ["poll:"; show_nat (t_id t); ":0"]])))
+               if Nat.eqb (t_gates t) 0 then ((pr ++ [(t_id t, (0, Finished))]), (lg ++ [EvDone (t_id t)]))
+               else ((pr ++ [(t_id t, (0, Pending))]), (lg ++ [EvPoll (t_id t) 0])))
             ts ([], []).
 
-Definition init (p : list anode) : astate * list string :=
+Definition init (p : list anode) : astate * list aev :=
   let '(ss, ts) := collect None None p (prog_size p) in
   let '(pr, lg) := initial_progress ts in
   let pending := filter (fun t => negb (Nat.eqb (t_gates t) 0)) ts in
@@ -135,8 +138,14 @@ Fixpoint insert_by_id (s : scope_info) (l : list scope_info) : list scope_info :
   | [] => [s]
   | x :: r => if Nat.leb (s_id s) (s_id x) then s :: l else x :: insert_by_id s r
   end.
-Definition observe (st : astate) (lg : list string) : string :=
-  cat ["log "; join " " lg; " ; load ";
+Definition show_aev (e : aev) : string :=
+  match e with
+  | EvPoll t i => cat ["poll:"; show_nat t; ":"; show_nat i]
+  | EvDone t => cat ["done:"; show_nat t]
+  | EvPanic => "PANIC:signal_was_disposed"
+  end.
+Definition observe (st : astate) (lg : list aev) : string :=
+  cat ["log "; join " " (map show_aev lg); " ; load ";
        join " " (map (show_load st) (fold_right insert_by_id [] (filter s_is_sus (scopes st))))].
 
 (* ---- transitions ---- *)
@@ -148,23 +157,23 @@ Definition set_progress (st : astate) (t : nat) (p : nat * tstatus) : astate :=
   AState (scopes st) (tasks st) (alive st) (root_alive st) (aset (progress st) t p) (counters st).
 
 (* dropping the guard of a task: the decrement of SuspenseTaskGuard::drop *)
-Definition drop_guard (fx : bool) (st : astate) (ti : task_info) : astate * list string :=
+Definition drop_guard (fx : bool) (st : astate) (ti : task_info) : astate * list aev :=
   match t_sus ti with
   | None => (st, [])
   | Some sus =>
       if counter_alive st sus then (dec_counter st sus, [])
-      else if fx then (st, []) else (st, ["PANIC:signal_was_disposed"])
+      else if fx then (st, []) else (st, [EvPanic])
   end.
 
-Definition step_go (fx : bool) (st : astate) (t : nat) : astate * list string :=
+Definition step_go (fx : bool) (st : astate) (t : nat) : astate * list aev :=
   match task_of st t, aget (progress st) t with
   | Some ti, Some (i, Pending) =>
-      let lg := [cat ["poll:"; show_nat t; ":"; show_nat i]] in
-      if Nat.ltb (S i) (t_gates ti) then (set_progress st t (S i, Pending), (lg ++ [cat ["poll:"; show_nat t; ":"; show_nat (S i)]]))
+      let lg := [EvPoll t i] in
+      if Nat.ltb (S i) (t_gates ti) then (set_progress st t (S i, Pending), (lg ++ [EvPoll t (S i)]))
       else
         let st1 := set_progress st t (S i, Finished) in
         let '(st2, lg2) := drop_guard fx st1 ti in
-        (st2, (lg ++ [cat ["done:"; show_nat t]] ++ lg2))
+        (st2, (lg ++ [EvDone t] ++ lg2))
   | _, _ => (st, [])
   end.
 
@@ -179,18 +188,20 @@ Fixpoint in_subtree (fuel : nat) (st : astate) (root : nat) (id : option nat) : 
       end
   end.
 
-Definition cancel_tasks (fx : bool) (st : astate) (doomed : task_info -> bool) : astate * list string :=
-  fold_left (fun '(st, lg) ti =>
-               match aget (progress st) (t_id ti) with
-               | Some (i, Pending) =>
-                   if doomed ti then
-                     let st1 := set_progress st (t_id ti) (i, Cancelled) in
-                     let '(st2, lg2) := drop_guard fx st1 ti in (st2, (lg ++ lg2))
-                   else (st, lg)
-               | _ => (st, lg)
-               end) (tasks st) (st, []).
+Definition cancel_one (fx : bool) (doomed : task_info -> bool) (acc : astate * list aev) (ti : task_info) : astate * list aev :=
+  let '(st, lg) := acc in
+  match aget (progress st) (t_id ti) with
+  | Some (i, Pending) =>
+      if doomed ti then
+        let st1 := set_progress st (t_id ti) (i, Cancelled) in
+        let '(st2, lg2) := drop_guard fx st1 ti in (st2, (lg ++ lg2))
+      else (st, lg)
+  | _ => (st, lg)
+  end.
+Definition cancel_tasks (fx : bool) (st : astate) (doomed : task_info -> bool) : astate * list aev :=
+  fold_left (cancel_one fx doomed) (tasks st) (st, []).
 
-Definition step_dispose (fx : bool) (st : astate) (id : nat) : astate * list string :=
+Definition step_dispose (fx : bool) (st : astate) (id : nat) : astate * list aev :=
   if mem id (alive st) then
     let fuel := S (List.length (scopes st)) in
     let dead := fun i => in_subtree fuel st id (Some i) in
@@ -199,16 +210,16 @@ Definition step_dispose (fx : bool) (st : astate) (id : nat) : astate * list str
   else (st, []).
 
 (* RootHandle::dispose at the end: everything dies *)
-Definition step_end (fx : bool) (st : astate) : astate * list string :=
+Definition step_end (fx : bool) (st : astate) : astate * list aev :=
   let st1 := AState (scopes st) (tasks st) [] false (progress st) (counters st) in
   cancel_tasks fx st1 (fun _ => true).
 
-Definition step (fx : bool) (st : astate) (s : astep) : astate * list string :=
+Definition step (fx : bool) (st : astate) (s : astep) : astate * list aev :=
   match s with Go t => step_go fx st t | DisposeS id => step_dispose fx st id end.
 
 Fixpoint run_steps (fx : bool) (st : astate) (ss : list astep) : list string :=
   match ss with
-  | [] => let '(_, lg) := step_end fx st in [cat ["end "; join " " lg]]
+  | [] => let '(_, lg) := step_end fx st in [cat ["end "; join " " (map show_aev lg)]]
   | s :: rest => let '(st', lg) := step fx st s in observe st' lg :: run_steps fx st' rest
   end.
 
